@@ -245,12 +245,12 @@ def run(chk, only=None):
                                              for r in nontriv]),
         "rule": "72 enumerated single-branch scenarios (every single fault position START/STMT/END/PREPARE/COMMIT/ROLLBACK, both refusal "
                 "kinds, commit/rollback, holder/stranger, server 5.7.30 and 8.0.30) + 54 enumerated pool-retirement / ErrBadConn / db.ExecContext-retry "
-                "histories + 134 enumerated reuse/timeout histories (failed first "
+                "histories + 150 enumerated reuse/timeout histories + 4 long-xid (IPv6) multi-branch histories (failed first "
                 "branch of every kind x second branch on the same pooled connection x phase-two order; timeouts) + %d seeded programs "
                 "(1-4 branches on fresh or pool-reused connections or through db.ExecContext with its retry, pool retirements, slow statements, fault error "
                 "kinds generic/ErrBadConn/context, interleaved phase two incl. rollback for failed-START "
                 "branches, 0-3 faults, refusals, three server versions) + %d malformed-stream programs "
-                "(hostile xids, zero/negative branch ids, up to 6 faults, dangling/duplicate phase two) through the real XA proxy; "
+                "(hostile xids, xids up to 200 bytes (IPv6-style coordinator addresses), zero/negative branch ids, up to 6 faults, dangling/duplicate phase two) through the real XA proxy; "
                 "%d identifier cases through XaIdBuild/XaIdBuildWithByte; non-trivial = at least one XA START reached the server; "
                 "distinct by (program, faults, refusals, version, command/result sequence)" % (n, m, len(ident)),
         "traces_validated_against_impl": len(clean_all) - len(mism),
